@@ -2,7 +2,7 @@
    One request per line: (cmd arg ...) -> one reply.  Everything here is glue:
    decoders/encoders of sx, no logic that a property theorem speaks about. *)
 From Coq Require Import ZArith List Bool.
-From V Require Import Result Bytes TypeName Utf8 Float32 Codec.
+From V Require Import Result Bytes TypeName Utf8 Float32 Codec AuxTable.
 Import ListNotations.
 Open Scope Z_scope.
 
@@ -58,6 +58,51 @@ Definition getter_of_sx (s : sx) : Z -> option Z :=
 Definition sx_res {X} (f : X -> sx) (r : res X) : sx :=
   match r with Ok x => L [A 0; f x] | Err e => sx_err e end.
 
+(* C14: one table through a list of ops; one observation per op *)
+Fixpoint run_table (get : Z -> option Z) (t : table) (last : list Z * list Z) (ops : list sx) : list sx :=
+  match ops with
+  | [] => []
+  | o :: ops' =>
+    match o with
+    | L [A 0] =>
+      match read get t with
+      | Ok (t', v) => L [A 0; sx_of_value v] :: run_table get t' last ops'
+      | Err e => sx_err e :: run_table get t last ops'
+      end
+    | L [A 1; v] =>
+      match step get t (Mutate (value_of_sx v)) with
+      | Ok t' => L [A 0] :: run_table get t' last ops'
+      | Err e => sx_err e :: run_table get t last ops'
+      end
+    | L [A 2; v] =>
+      match step get t (Assign (value_of_sx v)) with
+      | Ok t' => L [A 0] :: run_table get t' last ops'
+      | Err e => sx_err e :: run_table get t last ops'
+      end
+    | L [A 3; tn] =>
+      match step get t (SetType (un_zs tn)) with
+      | Ok t' => L [A 0] :: run_table get t' last ops'
+      | Err e => sx_err e :: run_table get t last ops'
+      end
+    | L [A 4] =>
+      match save get t with
+      | Ok (t', (tn, bs)) => L [A 0; sx_zs tn; sx_zs bs] :: run_table get t' (tn, bs) ops'
+      | Err e => sx_err e :: run_table get t last ops'
+      end
+    | L [A 5] => L [A 0] :: run_table get (load (fst last) (snd last)) last ops'
+    (* order witness: the implementation's current value, equal to the model's up to set/mapping order *)
+    | L [A 6; v] =>
+      match lazy t with
+      | None =>
+        if veqb (data t) (value_of_sx v)
+        then L [A 0] :: run_table get {| lazy := None; data := value_of_sx v; tname := tname t |} last ops'
+        else L [A (-3); sx_of_value (data t)] :: run_table get t last ops'
+      | Some _ => L [A (-4)] :: run_table get t last ops'
+      end
+    | _ => L [A (-2)] :: run_table get t last ops'
+    end
+  end.
+
 Definition run (req : sx) : sx :=
   match req with
   (* 1: Serialization._parse_type *)
@@ -83,5 +128,16 @@ Definition run (req : sx) : sx :=
   | L [A 6; bs] => match utf8_decode (un_zs bs) with Some s => L [A 0; sx_zs s] | None => sx_err EValue end
   | L [A 7; A b] => sx_res A (round32 b)
   | L [A 8; A b] => A (widen32 b)
+  (* 9: is (type, value) inside the domain of the C07 round-trip theorem? *)
+  | L [A 9; tn; v; g] =>
+    match parse_type (un_zs tn) with
+    | Ok t => sx_bool (wt (getter_of_sx g) t (value_of_sx v))
+    | Err _ => A 0
+    end
+  (* 10: a loaded table (type name, raw bytes) through ops; 11: a user-built table *)
+  | L [A 10; g; tn; raw; L ops] =>
+    L (run_table (getter_of_sx g) (load (un_zs tn) (un_zs raw)) (un_zs tn, un_zs raw) ops)
+  | L [A 11; g; tn; v; L ops] =>
+    L (run_table (getter_of_sx g) (fresh (un_zs tn) (value_of_sx v)) (un_zs tn, []) ops)
   | _ => L [A (-2)]
   end.
